@@ -455,9 +455,64 @@ def one_family(ctx, imp, tag):
                     imp.delete_graph(graph_id=g)
 
 
+def scenario_rejected_merge(ctx, imp, tag):
+    """A model whose merge is refused (it delegates the capacity of a shared stitch element the combined model already has a
+    capacity delegation for - and, unlike the model merged before, also its labels): once that model is unmerged again, whatever
+    the refused merge had begun is gone and the combined model is what it was before."""
+    from fim.graph.resources.networkx_adm import NetworkXADMGraph
+    from fim.slivers.capacities_labels import StructuralInfo
+    imp.delete_all_graphs()
+    LAB, CAP = 'LabelDelegations', 'CapacityDelegations'
+    rng = ctx.subrng('rejected', tag)
+
+    def deleg(did, kind):
+        return json.dumps({did: {'pool_id': '_', 'labels': {'vlan_range': '100-200'}} if kind == LAB else
+                                {'pool_id': '_', 'capacities': {'bw': 100}}})
+
+    def make(gid, s, link_props):
+        g = NetworkXADMGraph(graph_id=gid, importer=imp)
+        nodes = {f'{s}-sw': ('NetworkNode', {'Type': 'Switch', 'Site': s, CAP: deleg('primary', CAP)}),
+                 f'{s}-ns': ('NetworkService', {'Type': 'MPLS'}),
+                 f'{s}-cp': ('ConnectionPoint', {'Type': 'TrunkPort', LAB: deleg('primary', LAB)}),
+                 'link-ab': ('Link', dict({'Type': 'L2Path', 'StitchNode': 'true'}, **link_props))}
+        for nid, (cls, props) in nodes.items():
+            g.add_node(node_id=nid, label=cls, props=dict(props, Name=nid, StructuralInfo=StructuralInfo().to_json()))
+        for a, rel, b in ((f'{s}-sw', 'has', f'{s}-ns'), (f'{s}-ns', 'connects', f'{s}-cp'), (f'{s}-cp', 'connects', 'link-ab')):
+            g.add_link(node_a=a, rel=rel, node_b=b)
+        return g
+    first, second = rng.sample([LAB, CAP], 2)
+    A = make(f'adm-A-{tag}', 'a', {second: deleg('primary', second)})
+    B = make(f'adm-Bbad-{tag}', 'b', {first: deleg('primary', first), second: deleg('primary', second)})
+    cbm = cbm_class()(graph_id=f'cbm-rej-{tag}', importer=imp)
+    w = {'scenario': 'rejected-merge', 'conflicting_property': second, 'also_delegated': first}
+    ctx.count('scenario:rejected-merge')
+    try:
+        cbm.merge_adm(adm=A)
+        before = sem_graph(canon.graph_snapshot(imp, cbm.graph_id))
+        try:
+            cbm.merge_adm(adm=B)
+            ctx.count('scenario:rejected-merge:accepted')
+            return
+        except Exception:
+            ctx.count('scenario:rejected-merge:refused')
+        cbm.unmerge_adm(graph_id=B.graph_id)
+        after = sem_graph(canon.graph_snapshot(imp, cbm.graph_id) or {'nodes': {}, 'edges': {}})
+        ctx.count('clause:refused-merge-then-unmerge-restores')
+        if after != before:
+            ctx.violation('C14/refused-merge-then-unmerge-does-not-restore', 'unmerging a model removes exactly what only it contributed: after a '
+                          'merge that was refused and the unmerge of that model, the combined model is what it was before',
+                          dict(w, diff=canon.diff(before, after)))
+    except Exception as e:
+        ctx.violation('C14/interleaving-raises', f'{type(e).__name__}: {str(e)[:200]}', w)
+    finally:
+        imp.delete_all_graphs()
+
+
 def run(ctx):
     imps = rawgraph.importers()
     imp = imps['shared'][0]
+    for k in range(ctx.pick(2, 12)):
+        scenario_rejected_merge(ctx, imp, k)
     n = ctx.pick(20, 400)
     for i in range(n):
         one_family(ctx, imp, i)
